@@ -1,7 +1,7 @@
 (* C36: the theorems about the cursor model (assembled from Cursor_lists / Cursor_inv / Cursor_place). *)
 From Coq Require Import ZArith List Bool Lia ZifyBool Arith.
 From PCB Require Import lib.Result lib.PyInt model.Cursor proofs.Cursor_lists proofs.Cursor_inv proofs.Cursor_place
-  proofs.Cursor_flags.
+  proofs.Cursor_flags proofs.Cursor_term.
 Import ListNotations.
 Open Scope Z_scope.
 
@@ -457,4 +457,77 @@ Proof.
         ((lin (width s0) (row s0) vc0 + Z.of_nat (length (ch :: t)) - 1) mod width s0 =? width s0 - 1) by lia.
       destruct (_ && flags0 s0 v); reflexivity. }
   rewrite HK. apply L1. exact HC.
+Qed.
+
+(* ---- Console.write of text over plain characters, CR, LF, TAB, BEL, HOME and CLS refines the reference terminal *)
+Definition term0 (s0 : st) : term :=
+  mkterm (get_cell (cells s0)) (wraps_at s0) (row s0) (if ovf s0 then width s0 + 1 else col s0).
+
+Theorem console_write_refines s0 str : INV s0 -> bra s0 = false -> top s0 <= row s0 <= bot s0 ->
+  (ovf s0 = true -> col s0 = width s0) -> Forall (fun c => term_char c = true) str ->
+  let W := width s0 in let T := top s0 in let B := bot s0 in
+  let s := console_write s0 str in
+  let t := t_write W T B (term0 s0) str in
+  same_env s0 s /\
+  (forall R C, 1 <= R <= height s0 -> 1 <= C <= W -> get_cell (cells s) R C = tg t R C) /\
+  row s = tr t /\ T <= row s <= B /\ csrlin s = t_csrlin W B t /\ pos s = t_pos W t.
+Proof.
+  intros HI Hb Hr Hov Hf. cbv zeta.
+  pose proof HI as [[Hg Hgr] [Hr0 Hc0]].
+  assert (R0 : trel s0 s0 (term0 s0)).
+  { split.
+    - constructor; auto.
+      + apply same_env_refl.
+      + split; auto.
+    - unfold crel, term0. cbn [tc]. destruct (ovf s0) eqn:E; [right; auto | left; auto]. }
+  pose proof (write_rel s0 Hg s0 (term0 s0) str Hf R0) as [[E1 E2 E3 [E4 E5] E6 E7] C].
+  destruct (env_fields s0 _ E1) as (A1 & A2 & A3 & A4).
+  split; [exact E1|]. split; [exact E6|]. split; [exact E4|]. split; [exact E5|].
+  unfold csrlin, pos, t_csrlin, t_pos. rewrite A1, A4, <- E4.
+  destruct Hg as (G1 & G2 & _).
+  destruct C as [(C1 & C2 & C3) | (C1 & C2 & C3)]; rewrite C3; cbn [andb].
+  - replace (tc (t_write (width s0) (top s0) (bot s0) (term0 s0) str) >? width s0) with false by lia.
+    cbn [andb]. rewrite andb_false_r. split; [reflexivity | exact C2].
+  - replace (tc (t_write (width s0) (top s0) (bot s0) (term0 s0) str) >? width s0) with true by lia.
+    rewrite C2, Z.eqb_refl. cbn [andb]. split; reflexivity.
+Qed.
+
+(* ---- plain CLS without VIEW PRINT clears every row, the bottom row included (key bar off), cursor home *)
+Theorem cls_plain_clears_all s : INV s -> act s = false -> barvis s = false ->
+  let s' := fst (cls s None) in
+  snd (cls s None) = Ok tt /\
+  (forall R C, 1 <= R <= height s -> 1 <= C <= width s -> get_cell (cells s') R C = 32) /\
+  row s' = 1 /\ col s' = 1 /\ ovf s' = false /\ same_env s s'.
+Proof.
+  intros [[Hg (Hsh & Hwl & Hgr)] _] Hact Hbar. cbv zeta.
+  destruct Hg as (G1 & G2 & G3 & G4 & G5 & G6). destruct (G6 Hact) as [Ht Hb].
+  unfold cls. cbn [oint16 negb andb orb]. rewrite andb_false_r. rewrite Hact. cbn [negb andb orb fst snd].
+  unfold clear_all, set_pos.
+  set (s1 := b_clear s 1 (height s) false).
+  assert (F1 : width s1 = width s /\ height s1 = height s /\ top s1 = top s /\ bot s1 = bot s /\ barvis s1 = barvis s
+               /\ cells s1 = clear_l (width s) (cells s) 1 (height s) /\ same_env s s1)
+    by (unfold s1, b_clear; setters; proj; repeat split; reflexivity).
+  destruct F1 as (F1 & F2 & F3 & F4 & F5 & F6 & F7).
+  rewrite F1. replace (1 <? width s) with true by lia.
+  set (X := set_rc (set_ovf s1 false) 1 1).
+  assert (FX : row X = 1 /\ col X = 1 /\ width X = width s /\ height X = height s /\ top X = top s /\ bot X = bot s
+               /\ ovf X = false /\ barvis X = barvis s /\ cells X = cells s1 /\ same_env s X)
+    by (unfold X; setters; proj; repeat split; auto; apply F7).
+  destruct FX as (X1 & X2 & X3 & X4 & X5 & X6 & X7 & X8 & X9 & X10).
+  rewrite (wrap_scroll_stay true X) by (try lia; rewrite X1, X4; replace (1 =? height s) with false by lia; apply andb_false_r).
+  unfold redraw_bar.
+  set (X' := set_bra X false).
+  assert (FX' : barvis (b_clear X' (height X') (height X') false) = false)
+    by (unfold X', b_clear; setters; proj; congruence).
+  rewrite FX'.
+  split; [reflexivity|]. split.
+  - intros R C HR HC. unfold X', b_clear. setters. proj. rewrite X3, X4, X9, F6.
+    change (get_cell (clear_l (width s) (clear_l (width s) (cells s) 1 (height s)) (height s) (height s)) R C = 32).
+    assert (Hl1 : length (clear_l (width s) (cells s) 1 (height s)) = zn (height s))
+      by (unfold clear_l; rewrite mapi_from_length; apply Hsh).
+    rewrite (get_clear _ (height s)) by auto.
+    destruct (in_rows (height s) (height s) R); [reflexivity|].
+    rewrite (get_clear _ (height s)) by (try apply Hsh; auto).
+    unfold in_rows. replace ((1 <=? R) && (R <=? height s)) with true by lia. reflexivity.
+  - unfold X', b_clear. setters. proj. repeat split; auto; apply X10.
 Qed.
